@@ -660,6 +660,8 @@ class Normalizer:
                 return pmul(pconst(lead), patom(("call", fname_j, (freeze(q),), ())))
             if short == "exp" and len(args) == 1:
                 return patom(("call", fname_j, (self.canon(args[0]),), ()))
+        if fname in ("min", "max") and len(args) == 2 and not kw and self.minmax:
+            return self.minmax_term("minimum" if fname == "min" else "maximum", self.canon(args[0]), self.canon(args[1]))
         if fname in ("float", "int", "bool") and len(args) == 1 and not kw:
             return self.cast(args[0], ("g", fname))
         if fname == "float" and len(args) == 1 and args[0] == ("const", "inf"):
